@@ -1,0 +1,10 @@
+//go:build verif
+
+package accounts
+
+// NewConfigVerif builds a Config around caller-supplied Authenticate and Access
+// implementations, so that a verification harness can observe which (user, graph, operation)
+// triples the interceptors ask Enforce about and when. Compiled only with -tags verif.
+func NewConfigVerif(auth Authenticate, access Access) *Config {
+	return &Config{auth: auth, access: access}
+}
